@@ -194,6 +194,20 @@ def plan_order(rep: Report, prog: Program) -> None:
             elif isinstance(st, ast.If):
                 walk(st.body, dict(env))
                 walk(st.orelse, dict(env))
+            elif isinstance(st, ast.Expr) and isinstance(st.value, ast.Call) and isinstance(st.value.func, ast.Attribute) \
+                    and isinstance(st.value.func.value, ast.Name) and st.value.func.attr in ("extend", "append") and len(st.value.args) == 1:
+                nm = st.value.func.value.id
+                a0 = st.value.args[0]
+                add = seq(a0, env) if st.value.func.attr == "extend" else ["prefix" if is_prefix_tuple(a0) else "other"]
+                env[nm] = env.get(nm, ["other*"]) + add
+            elif isinstance(st, ast.For):
+                # a loop that appends to a list: what it appends, any number of times
+                for c in ast.walk(st):
+                    if isinstance(c, ast.Call) and isinstance(c.func, ast.Attribute) and isinstance(c.func.value, ast.Name) \
+                            and c.func.attr in ("append", "extend", "insert") and c.args:
+                        nm = c.func.value.id
+                        a0 = c.args[-1]
+                        env[nm] = env.get(nm, ["other*"]) + (["many:prefix"] if is_prefix_tuple(a0) or c.func.attr != "append" and "prefix" in " ".join(seq(a0, env)) else ["other*"])
             elif isinstance(st, ast.Return) and st.value is not None:
                 results.append((st, seq(st.value, env)))
     walk(fn.body, {})
@@ -210,6 +224,11 @@ def plan_order(rep: Report, prog: Program) -> None:
     loops = [n for n in ast.walk(ip.node) if isinstance(n, ast.For)]
     okp = len(loops) == 1 and isinstance(loops[0].iter, ast.Name) and loops[0].iter.id == ip.params()[0] and \
         any(isinstance(c, ast.Call) and isinstance(c.func, ast.Attribute) and c.func.attr == "append" for c in ast.walk(loops[0]))
+    if not loops:
+        # or one list comprehension over the parameter, returned as it is
+        rets = [r.value for r in ast.walk(ip.node) if isinstance(r, ast.Return) and r.value is not None]
+        okp = len(rets) == 1 and isinstance(rets[0], ast.ListComp) and len(rets[0].generators) == 1 \
+            and isinstance(rets[0].generators[0].iter, ast.Name) and rets[0].generators[0].iter.id == ip.params()[0]
     rep.check("R10.5", "_inline_paths:order", okp, "_inline_paths does not map the plan in order (append in a forward loop)", ip.where())
     from .c05 import check_inline_paths
     check_inline_paths(rep, prog, "R10.5")
@@ -290,6 +309,9 @@ def offset_composition(rep: Report, prog: Program, resolver: Resolver) -> None:
         cfg = CFG(fi.node)
 
         def is_off(e: ast.AST) -> bool:
+            # Decimal(offset), float(offset): the same offset in another number type
+            while isinstance(e, ast.Call) and ast.unparse(e.func) in ("Decimal", "float", "Fraction", "decimal.Decimal") and len(e.args) == 1 and not e.keywords:
+                e = e.args[0]
             return (isinstance(e, ast.Name) and e.id in offs) or ("_offsets" in ast.unparse(e) and not isinstance(e, ast.Name))
 
         def is_product(e: ast.AST, at: Optional[int], depth: int = 0) -> bool:
@@ -323,6 +345,8 @@ def offset_composition(rep: Report, prog: Program, resolver: Resolver) -> None:
                 a, b = node.args
             elif isinstance(node, ast.BinOp) and isinstance(node.op, ast.Add):
                 a, b = node.left, node.right
+            elif isinstance(node, ast.AugAssign) and isinstance(node.op, ast.Add) and isinstance(node.target, ast.Name):
+                a, b = ast.Name(id=node.target.id, ctx=ast.Load()), node.value     # `acc += offset`
             if a is None or not (is_off(a) or is_off(b)):
                 continue
             other = b if is_off(a) else a
